@@ -273,7 +273,8 @@ class Flwdir(object):
         # reset order, nnodes and upstream cell indices
         self._seq = None
         self._nnodes = None
-        self._idxs_us_main = None
+        for key in ("rank", "idxs_us_main", "strord", "distnc"):
+            self._cached.pop(key, None)
 
     def repair_loops(self):
         """Repair loops by setting a pit at every cell which does not drain to a pit."""
